@@ -122,6 +122,21 @@ def run(ck, facts, tier, only=None):
         except Unsupported as e:
             ck.fail(r2, "Cal::" + method, "rule could not be established (%s)" % e)
 
+    # ---------------- R06.6 the union is its members, as given
+    if only is None or "R06.6" in only:
+        r6u = ck.rule("R06.6", "UnionCal::new(calendars, settlement_calendars) stores both lists as given: no member is dropped, merged or reordered (two members that "
+                               "share a holiday list but not a working week are two members)", floor=1)
+        ru = facts.fn("calendars::calendar::UnionCal::new")
+        if ru is None:
+            ck.fail(r6u, "UnionCal::new", "constructor not found")
+        else:
+            try:
+                C_, S_ = Sym("param", "calendars"), Sym("param", "settlement_calendars")
+                gotu = cel.Ev(facts).apply_fn(ru["fn"], [C_, S_], 0)
+                ck.check(r6u, "UnionCal::new", isinstance(gotu, Rec) and vkey(gotu.fields.get("calendars")) == vkey(C_) and vkey(gotu.fields.get("settlement_calendars")) == vkey(S_),
+                         "UnionCal::new does not store its two lists as given: %s" % cel.vfmt(gotu)[:300], "%s:%d" % (ru["file"], ru["line"]), sample="UnionCal { calendars, settlement_calendars }")
+            except Unsupported as e:
+                ck.fail(r6u, "UnionCal::new", "rule could not be established (%s)" % e, "%s:%d" % (ru["file"], ru["line"]))
     if only is not None and "R06.3" not in only:
         return
     # ---------------- R06.3 name parsing
